@@ -158,10 +158,10 @@ def c20(rec):
     if not p.endswith("/") and rec["trailing"] != rec["merklePath"]:
         viol("trailing-slash-not-neutral", "MerklePath(path/) differs from MerklePath(path)")
     # the client-side derivation (MerkleHelper) must recombine to the path's own address wherever the
-    # plain path has at least two segments and its last two are non-empty
+    # plain path has at least two segments and the last-but-one is non-empty
     for q, (par, chh) in zip([p, p + "/" + ch, p + "/"], rec.get("helpers") or []):
         t = q[:-1] if q.endswith("/") else q
         segs = t.split("/")
-        if len(segs) >= 2 and segs[-1] != "" and segs[-2] != "" and hx(par + chh) != merkle_path(q):
+        if len(segs) >= 2 and segs[-2] != "" and hx(par + chh) != merkle_path(q):
             viol("helper-does-not-recombine", f"MerkleHelper({q!r}) recombines to {hx(par + chh)[:12]}…, the path's address is {merkle_path(q)[:12]}…")
     return out
